@@ -125,7 +125,11 @@ def run(ctx):
         return
     rerr = c15.regenerate(ctx)
     if rerr:
-        ctx.violation("translator-failclosed", "translator cannot translate the current source: " + rerr, {"broken": "translator (Tie 1) for Gen/GLit.v"}, found_input=False)
+        # search for a concrete failing input: the bytes a constant spells against the bytes the gcc-built parser stores
+        nbefore = len(getattr(ctx, "violations", []))
+        c15.stored_literals(ctx)
+        if len(getattr(ctx, "violations", [])) == nbefore:
+            ctx.violation("translator-failclosed", "translator cannot translate the current source: " + rerr, {"broken": "translator (Tie 1) for Gen/GLit.v"}, found_input=False)
     else:
         rc, out = common.coq_make(["Gen/GLit.vo", "CSkel/Safety.vo"], timeout=900)
         c02.proofs(ctx, "C03.v")
